@@ -6,13 +6,13 @@ from rules import recovery as R
 
 
 def run(ctx):
-    E.flw9_envelope(ctx)
-    D.who4_envelope(ctx)
-    T.tbl7_partition_codec(ctx)
-    T.tbl8_event_buffer_codec(ctx)
-    T.tbl9_catalogue_codec(ctx)
-    R.pan1_awaited_jobs_report_failures(ctx)
-    D.erv4_no_error_discarded(ctx)
+    ctx.run(E.flw9_envelope)
+    ctx.run(D.who4_envelope)
+    ctx.run(T.tbl7_partition_codec)
+    ctx.run(T.tbl8_event_buffer_codec)
+    ctx.run(T.tbl9_catalogue_codec)
+    ctx.run(R.pan1_awaited_jobs_report_failures)
+    ctx.run(D.erv4_no_error_discarded)
     return ctx.finish(
         'Static analysis: (a) MIR dataflow/dominance on the blob envelope - the payload is returned '
         'only after minimum-length, version, total-length and SHA-256 checks over exactly the '
